@@ -498,12 +498,17 @@ func runReentWorkload(wl workload, seed int64, scale int) (*childResult, error) 
 		err     error
 	}
 	slow := make([]slowRes, len(slowKinds))
-	jobs := make(chan int, len(cases)+len(slowKinds))
+	others := otherJobs()
+	otherRes := make([]slowRes, len(others))
+	jobs := make(chan int, len(cases)+len(slowKinds)+len(others))
 	for i := range cases {
 		jobs <- i
 	}
 	for i := range slowKinds {
 		jobs <- len(cases) + i
+	}
+	for i := range others {
+		jobs <- len(cases) + len(slowKinds) + i
 	}
 	close(jobs)
 	var wg sync.WaitGroup
@@ -514,10 +519,12 @@ func runReentWorkload(wl workload, seed int64, scale int) (*childResult, error) 
 			for i := range jobs {
 				if i < len(cases) {
 					results[i] = runReentCase(cases[i])
-				} else {
-					j := i - len(cases)
+				} else if j := i - len(cases); j < len(slowKinds) {
 					n, v, err := runSlowCase(slowKinds[j])
 					slow[j] = slowRes{n, v, err}
+				} else {
+					n, v, err := others[j-len(slowKinds)].run()
+					otherRes[j-len(slowKinds)] = slowRes{n, v, err}
 				}
 			}
 		}()
@@ -534,7 +541,7 @@ func runReentWorkload(wl workload, seed int64, scale int) (*childResult, error) 
 		}
 		res.Calls++
 	}
-	for _, r := range slow {
+	for _, r := range append(slow, otherRes...) {
 		if r.err != nil {
 			return nil, r.err
 		}
